@@ -123,8 +123,17 @@ def result_digest(res):
     return h.hexdigest()
 
 
-def compare_results(a, b, rtol=0.0, i0a=0, i0b=0):
-    """compare two {key: array} dicts from result_arrays; rtol=0 => bitwise (NaN == NaN). returns None or (key, index, x, y)"""
+def compare_results(a, b, rtol=0.0, i0a=0, i0b=0, pop_scale=False):
+    """compare two {key: array} dicts from result_arrays; rtol=0 => bitwise (NaN == NaN). returns None or (key, index, x, y).
+    pop_scale=True: stocks, flows and characteristics are compared relative to the largest stock of their population (a small
+    compartment next to a huge one is the remainder of huge flows and exact only relative to those)"""
+    popmax = {}
+    if pop_scale and rtol:
+        for k_, v_ in a.items():
+            if k_[0] == "comp" and v_.size:
+                with np.errstate(invalid="ignore"):
+                    m_ = np.nanmax(np.abs(np.where(np.isfinite(v_), v_, 0.0)))
+                popmax[k_[1]] = max(popmax.get(k_[1], 0.0), float(m_))
     if set(a) != set(b):
         only = sorted(set(a) ^ set(b), key=repr)[:3]
         return ("keys", only, None, None)
@@ -143,7 +152,8 @@ def compare_results(a, b, rtol=0.0, i0a=0, i0b=0):
             neq = (x != y) & ~nx
         else:
             with np.errstate(invalid="ignore"):
-                neq = (np.abs(x - y) > rtol * np.maximum(1.0, np.maximum(np.abs(x), np.abs(y)))) & ~nx
+                S_ = popmax.get(k[1], 0.0) if (isinstance(k, tuple) and len(k) > 1 and k[0] in ("comp", "bins", "charac", "link")) else 0.0
+                neq = (np.abs(x - y) > rtol * np.maximum(max(1.0, S_), np.maximum(np.abs(x), np.abs(y)))) & ~nx
                 neq |= np.isinf(x) != np.isinf(y)
         if neq.any():
             i = int(np.argwhere(neq)[0][-1])
